@@ -94,6 +94,19 @@ def rule_bind(ctx: Ctx) -> List[Ob]:
                          ("phi", "phi"), ("derphi", "dphi")):
                 v = b.get(p)
                 ok = v is not None and (src(v) == w or (p == "stpmin" and _lit(v) == 0))
+                if not ok and p in ("phi", "derphi") and isinstance(v, ast.Name):
+                    # by role: a local closure returning sf.fun(point) / sf.grad(point).dot(d)
+                    for dfn in ast.walk(ls.node):
+                        if isinstance(dfn, ast.FunctionDef) and dfn.name == v.id:
+                            rr = [r_.value for r_ in ast.walk(dfn) if isinstance(r_, ast.Return) and r_.value is not None]
+                            if len(rr) == 1 and isinstance(rr[0], ast.Call) and isinstance(rr[0].func, ast.Attribute):
+                                r0 = rr[0]
+                                if p == "phi":
+                                    ok = r0.func.attr == "fun" and src(r0.func.value) == "sf"
+                                else:
+                                    g0 = r0.func.value
+                                    ok = r0.func.attr == "dot" and [src(a_) for a_ in r0.args] == ["d"] and isinstance(g0, ast.Call) and \
+                                        isinstance(g0.func, ast.Attribute) and g0.func.attr == "grad" and src(g0.func.value) == "sf"
                 obs.append(ob("BIND", f"DCSRCH({p}=) receives {w}", ls, v or c, ok, f"{p} <- {short(v)} (SciPy signature {sig})",
                               construct=f"DCSRCH({p}={short(v, 30)})"))
         if isinstance(c, ast.Call) and (dotted(c.func) or "").endswith("minpack2.dcsrch"):
@@ -487,6 +500,53 @@ def rule_units(ctx: Ctx) -> List[Ob]:
 
 
 # ------------------------------------------------------------------ C18
+def _diag_comprehension(ctx, f, hp):
+    """the loop-free spelling: an array built from (H e_i)[i] for i, e_i in enumerate(identity(n))"""
+    from ..flow import Expander
+    rets = [r for r in walk_no_nested(f.node) if isinstance(r, ast.Return) and r.value is not None]
+    if len(rets) != 1:
+        return None
+    ex = Expander(ctx, f)
+    e = ex.expand_at(rets[0], rets[0].value)
+    if isinstance(e, ast.Call) and dotted(e.func) in ("np.fromiter", "np.array", "np.asarray") and e.args:
+        cnt = kw(e, "count")
+        e0 = e.args[0]
+    else:
+        return None
+    if isinstance(e0, ast.Call) and dotted(e0.func) in ("list", "tuple") and len(e0.args) == 1:
+        e0 = e0.args[0]
+    if not (isinstance(e0, (ast.GeneratorExp, ast.ListComp)) and len(e0.generators) == 1 and not e0.generators[0].ifs):
+        return None
+    g = e0.generators[0]
+    it = g.iter
+    obs = []
+    iv = ev = nexp = None
+    if isinstance(it, ast.Call) and dotted(it.func) == "enumerate" and len(it.args) == 1 and not it.keywords and isinstance(g.target, ast.Tuple) \
+            and len(g.target.elts) == 2 and all(isinstance(t, ast.Name) for t in g.target.elts):
+        iv, ev = g.target.elts[0].id, g.target.elts[1].id
+        m = it.args[0]
+        if isinstance(m, ast.Call) and dotted(m.func) in ("np.identity", "np.eye") and m.args and \
+                all(k.arg in ("dtype",) for k in m.keywords) and len(m.args) == 1:
+            nexp = src(m.args[0])
+    okn = nexp in (f"{hp}.shape[0]", f"{hp}.shape[1]") and (cnt is None or src(ex.expand_at(rets[0], cnt)) == nexp)
+    obs.append(ob("DIAG", "index ranges over all rows of the operator", f, rets[0], okn,
+                  f"for {iv}, {ev} in {short(it)}; n = {nexp}", construct=f"for {iv}, {ev} in {short(it, 50)}"))
+    obs.append(ob("DIAG", "probe is the i-th unit vector, re-created (or reset) in every iteration", f, rets[0], ev is not None and nexp is not None,
+                  f"probe `{ev}` is row {iv} of the identity matrix of order {nexp}", construct=f"{ev} = identity[{iv}]"))
+    el = e0.elt
+    ok = False
+    why = f"element {short(el)}"
+    if isinstance(el, ast.Subscript) and ev is not None:
+        prod = el.value
+        isprod = (isinstance(prod, ast.Call) and isinstance(prod.func, ast.Attribute) and prod.func.attr in ("matvec", "dot", "_matvec")
+                  and src(prod.func.value) == hp and [src(a) for a in prod.args] == [ev]) or \
+                 (isinstance(prod, ast.BinOp) and isinstance(prod.op, ast.MatMult) and src(prod.left) == hp and src(prod.right) == ev)
+        ok = isprod and src(el.slice) == iv
+        why = f"{short(el)}: product of the operator with the probe={isprod}, read index={src(el.slice)}, position in the result = position in the enumeration"
+    obs.append(ob("DIAG", "entry read and entry written are both index i of H e_i", f, rets[0], ok, why, construct=short(el)))
+    return obs
+
+
 @rule("DIAG", min_instances=3)
 def rule_diag(ctx: Ctx) -> List[Ob]:
     """extract_hess_inv_diag returns the (i, i) entries: the probe is the i-th unit vector created
@@ -495,9 +555,13 @@ def rule_diag(ctx: Ctx) -> List[Ob]:
     f = ctx.repo.func("utils.extract_hess_inv_diag")
     obs: List[Ob] = []
     loops = [s for s in f.node.body if isinstance(s, ast.For)]
+    hp = f.params[0]
+    if not loops:
+        got = _diag_comprehension(ctx, f, hp)
+        need(got is not None, "DIAG: neither the loop nor a comprehension over the unit vectors was found")
+        return got
     need(len(loops) == 1, "DIAG: loop not found")
     lp = loops[0]
-    hp = f.params[0]
     iv = lp.target.id if isinstance(lp.target, ast.Name) else None
     rng = lp.iter
     nname = src(rng.args[0]) if isinstance(rng, ast.Call) and dotted(rng.func) == "range" and len(rng.args) == 1 else None
